@@ -262,6 +262,8 @@ prop("C17",
      note="needs loopback TCP and the openssl CLI at setup time; trust is injected with SSL_CERT_FILE (honoured by the default native-tls connector); tls-rustls feature code is not built in this configuration and is out of reach")
 EXTRA_LANES["C17"] = [valgrind_lane()]
 
+EXTRA_LANES["C01"] = [miri_lane()]
+
 
 # ---- properties not (yet) claimed ----
 def _na():
